@@ -38,6 +38,8 @@ def select(prop, tier, only=None):
     sel = []
     for i in registry.INSTANCES:
         t = i["props"].get(prop)
+        if prop == "ALL":
+            t = "quick"
         if t is None:
             continue
         if tier == "quick" and t != "quick":
@@ -101,8 +103,7 @@ def classify(inst, parsed, rc, prop):
                 out["covers"].append({"desc": r["desc"], "satisfied": sat, "reachable": reachable})
                 if not sat and reachable and r["desc"] not in inst["optional_covers"]:
                     out["reasons"].append("cover not satisfiable (vacuous): " + r["desc"])
-                if r["desc"].startswith("[VAC]") and not sat:
-                    out["reasons"].append("end of harness not reachable (vacuous)")
+
             continue
         out["n_checks"] += 1
         if r["tags"]:
@@ -123,6 +124,10 @@ def classify(inst, parsed, rc, prop):
             out["notes"].append(r)
         else:
             out["failed"].append(r)
+    vac = [c for c in out["covers"] if c["desc"].startswith("[VAC]")]
+    if not vac or not any(c["satisfied"] for c in vac):
+        if not out["failed"]:
+            out["reasons"].append("end of harness not reachable (vacuous) or no end-of-harness witness")
     if out["failed"]:
         out["verdict"] = "fail"
     elif out["reasons"]:
@@ -148,7 +153,7 @@ def match_known(known, prop, inst, r):
 def run_property(prop, tier, args):
     t_start = time.time()
     props = load_props()
-    if prop not in props:
+    if prop not in props and prop != "ALL":
         print("unknown property", prop)
         return 2
     seed = int(os.environ.get("VERIF_SEED", "0") or 0)
@@ -162,7 +167,7 @@ def run_property(prop, tier, args):
     root = pl.make_scratch(sel)
     rc_final = 2
     try:
-        rc_final = _run(prop, tier, args, sel, root, log, seed, t_start, props[prop])
+        rc_final = _run(prop, tier, args, sel, root, log, seed, t_start, props.get(prop))
     finally:
         log.close()
         if not args.keep:
@@ -212,6 +217,8 @@ def _run(prop, tier, args, sel, root, log, seed, t_start, propdef):
             to = inst["timeout"] or default_timeout
             if tier == "thorough" and inst["timeout"]:
                 to = max(inst["timeout"] * 3, default_timeout)
+            if args.timeout:
+                to = args.timeout
             rc, wall = pl.run_cbmc(goto, h["attributes"].get("unwind_value"), to, mem, jf)
             parsed = pl.parse_results(jf)
             cls = classify(inst, parsed, rc, prop)
@@ -399,6 +406,8 @@ def write_evidence(prop, tier, seed, sel, results, t_start, violations=0, known_
         "wall_s": round(time.time() - t_start, 1),
         "violations": violations,
     }
+    if prop == "ALL":
+        return
     path = os.path.join(VERIF, "evidence", prop + ".json")
     tmp = path + ".tmp"
     json.dump(ev, open(tmp, "w"), indent=1)
@@ -418,6 +427,7 @@ def main(argv):
     ap.add_argument("--keep", action="store_true")
     ap.add_argument("--list", action="store_true")
     ap.add_argument("--max-replays", type=int, default=3)
+    ap.add_argument("--timeout", type=int, default=0, help="override the per-harness time cap (development)")
     args = ap.parse_args(argv)
     if args.tier not in ("quick", "thorough"):
         print("tier must be quick or thorough")
